@@ -1,6 +1,7 @@
 import RsslVerif.Lemmas.LexerStream
 import RsslVerif.Lemmas.LexerInt
 import RsslVerif.Lemmas.LexerFloat
+import RsslVerif.Lemmas.Dec2Bin
 /-!
 # C10 — lexing is lossless and numeric literals are exact
 
@@ -266,5 +267,60 @@ example : (match literalFloat [48, 46, 48, 48, 51, 49, 51, 48, 56] with
     | .ok (_, tok) => tok.floatBits? | .error _ => none) = some 0x3f69a5c37387b719 := by decide
 example : (match literalFloat [48, 46, 48, 53, 53, 76] with
     | .ok (_, tok) => tok.floatBits? | .error _ => none) = some 0x3fac28f5c28f5c29 := by decide
+
+/-! ## Part 4 — the rounding reference itself (`Spec/Dec2Bin.lean`) against the mathematical statement -/
+
+open Dec2Bin in
+/-- `nearest64 (digits, e)` is `nearestRat binary64` of the exact rational `digits × 10^e`, except for the two
+cut-offs that avoid astronomically large powers (`e > 400` ⟹ `+∞`, `e + |digits| < -400` ⟹ `0`; those two
+shortcuts are checked by the correspondence run only, class `float.huge_exponent`). -/
+theorem nearest64_unfold (ds : List Nat) (e : Int) (hD : ofDigits 10 ds ≠ 0) (h1 : e ≤ 400)
+    (h2 : -400 ≤ e + ds.length) :
+    nearest64 ds e =
+      if 0 ≤ e then nearestRat binary64 (ofDigits 10 ds * 10 ^ e.toNat) 1
+      else nearestRat binary64 (ofDigits 10 ds) (10 ^ (-e).toNat) := by
+  unfold nearest64 nearestDec
+  dsimp only
+  rw [if_neg hD, if_neg (by omega), if_neg (by omega)]
+
+open Dec2Bin in
+/-- **nearest_correct_partial**: for every positive rational `x = N / M` the reference returns the encoding of
+`m · 2^q` where `2^q` is the unit in the last place of the binade of `x` (`2^(p-1) ≤ ⌊x/2^q⌋ < 2^p`, or
+`q = emin` in the subnormal range: gradual underflow), `m` is the integer nearest to `x / 2^q` — error at most
+half a unit in the last place, no multiple of `2^q` is closer, the even `m` on a tie — and `+∞` when the
+encoding reaches the infinity pattern.  *Partial* with respect to DESIGN's `IsNearestEven`: the comparison
+against representable values of a *smaller* exponent (finer grid below the binade of `x`, which cannot be
+closer than half an ulp either) and the identification of the overflow threshold with
+`(2 - 2^-p)·2^emax` are not formalised. Stated for both formats. -/
+theorem nearest_correct_partial (f : Fmt) (hf : f = binary64 ∨ f = binary32) (N M : Nat) (hN : 0 < N) (hM : 0 < M) :
+    ∃ (q : Int) (A B m : Nat),
+      f.emin ≤ q ∧ 0 < B ∧ A * (M * 2 ^ q.toNat) = N * 2 ^ (-q).toNat * B ∧
+      (2 * A ≤ 2 * (m * B) + B ∧ 2 * (m * B) ≤ 2 * A + B) ∧
+      ((2 * A = 2 * (m * B) + B ∨ 2 * (m * B) = 2 * A + B) → m % 2 = 0) ∧
+      (∀ k, (2 * A - 2 * (m * B)) + (2 * (m * B) - 2 * A) ≤ (2 * A - 2 * (k * B)) + (2 * (k * B) - 2 * A)) ∧
+      A / B < 2 ^ f.p ∧ (f.emin < q → 2 ^ (f.p - 1) ≤ A / B) ∧ m ≤ 2 ^ f.p ∧ (f.emin < q → 2 ^ (f.p - 1) ≤ m) ∧
+      nearestRat f N M = Nat.min (encode f m q) f.infBits :=
+  nearestRat_spec f (by rcases hf with h | h <;> subst h <;> decide) N M hN hM
+
+open Dec2Bin in
+/-- **nearest_exact_on_representable**: a positive finite value `m · 2^q` of the format (canonical
+significand/exponent) is returned unchanged, as its own bit pattern. -/
+theorem nearest_exact_on_representable (f : Fmt) (hf : f = binary64 ∨ f = binary32) (m : Nat) (q : Int)
+    (hc : Canon f m q) :
+    nearestRat f (m * 2 ^ q.toNat) (2 ^ (-q).toNat) = Nat.min (encode f m q) f.infBits :=
+  nearestRat_exact f (by rcases hf with h | h <;> subst h <;> decide) m q hc
+
+/-- non-vacuity: `1.5 = 3·2^-1` is canonical as `(3·2^51, -52)` and comes back as `0x3ff8000000000000`;
+the smallest subnormal `(1, -1074)` comes back as `1`; halfway cases go to even -/
+example : Dec2Bin.Canon Dec2Bin.binary64 (3 * 2 ^ 51) (-52) := by unfold Dec2Bin.Canon; decide
+example : Dec2Bin.nearestRat Dec2Bin.binary64 3 2 = 0x3ff8000000000000 := by decide
+set_option exponentiation.threshold 2000 in
+example : Dec2Bin.nearestRat Dec2Bin.binary64 1 (2 ^ 1074) = 1 := by decide +kernel
+set_option exponentiation.threshold 2000 in
+example : Dec2Bin.nearestRat Dec2Bin.binary64 1 (2 ^ 1075) = 0 := by decide +kernel   -- tie → even (0)
+set_option exponentiation.threshold 2000 in
+example : Dec2Bin.nearestRat Dec2Bin.binary64 3 (2 ^ 1075) = 2 := by decide +kernel   -- tie → even (2)
+example : Dec2Bin.nearest64 [9, 0, 0, 7, 1, 9, 9, 2, 5, 4, 7, 4, 0, 9, 9, 3] 0 = 0x4340000000000000 := by decide
+example : Dec2Bin.narrow32 0x3ff0000010000000 = 0x3f800000 := by decide      -- 1 + 2^-24: tie → even
 
 end RsslVerif.Thm.C10
